@@ -9,7 +9,7 @@ from .. import fsharness as F
 ID = "C19"
 N_QUICK, N_THOROUGH = 400, 20000
 RULE = ("directory trees to depth 3: simfile extensions in mixed case, near-miss names (.sm.old, .ssca, 'sm'), images/audio/other files, loose files next to "
-        "directories, empty and nested directories, 0..2 simfiles of each kind per directory; x native temp directory and MemoryFS x strict x "
+        "directories, empty and nested directories, song folders named like images, audio files or near-misses, 0..2 simfiles of each kind per directory; x native temp directory and MemoryFS x strict x "
         "ignore_duplicate; files contain stray text so a dropped loader option is visible; an encoding option that changes the decoded text; compares "
         "SimfileDirectory paths / errors, SimfilePack members in listing order, opendir/openpack results and paths; non-trivial = pack with >= 1 member")
 assumptions = ["file names avoid U+03A3 (str.lower()'s final-sigma rule is context dependent; the model lowers per character)",
